@@ -6,7 +6,7 @@
 #include "libphysica/Linear_Algebra.hpp"
 using namespace libphysica;
 typedef long double ld;
-static const double K = 16;
+static const double K = 32;	// (R^T R)_ij sums three products of entries that each carry about 5u (normalised axis 2u, two products, one sum): 3*2*5u
 
 struct Axis { double x, y, z; std::string name; };
 
